@@ -26,7 +26,7 @@ def sorted_erts(s):
 
 
 def rand_history(rng, cfg, s, n, buf_extra, p_full=0.2, p_toggle=0.0, p_swap=0.0, p_other=0.15, maxlen=4,
-                 clock_inc=(0, 1, 1, 2, 5)):
+                 clock_inc=(0, 1, 1, 2, 5), p_same_addr=0.0):
     erts = sorted_erts(s)
     pc_user = [m for m in s['pc_extra']]
     pcargs = lg.rand_struct_vals(rng, {'minal': 8, 'members': pc_user}, maxlen) if pc_user else []
@@ -59,7 +59,8 @@ def rand_history(rng, cfg, s, n, buf_extra, p_full=0.2, p_toggle=0.0, p_swap=0.0
     # (documented initialisation; S10 in DESIGN.md): no toggle inside that very first callback
     for i0 in range(min(2, len(oracle))):   # the open callback itself and the clock read in the opening function
         oracle[i0] = (oracle[i0][0], None, oracle[i0][2], oracle[i0][3])
-    return {'calls': calls, 'oracle': oracle, 'pcargs': pcargs, 'buf': buf_bytes}
+    return {'calls': calls, 'oracle': oracle, 'pcargs': pcargs, 'buf': buf_bytes,
+            'same_addr': p_swap > 0 and rng.random() < p_same_addr}
 
 
 # ------------------------------------------------------------------ C glue
@@ -73,6 +74,7 @@ GLUE_HEAD = r'''
 struct ans { int full; int toggle; int newbuf; unsigned inc; };
 static struct %(prefix)s%(st)s_ctx sctx;
 static uint8_t *buf;
+static int same_addr;      /* the platform re-installs the SAME address with another size */
 static const struct ans *oracle;
 static int or_n, or_i;
 static unsigned long long clk;
@@ -112,8 +114,12 @@ static void plat_close(void *d)
 		for (i = 0; i < n; i++) printf("%%u ", %(prefix)spacket_buf(&sctx)[i]);
 		fflush(stdout);
 		if (a.newbuf >= 0) {
-			/* the old buffer is deliberately leaked: exact-size heap blocks keep ASan precise */
-			buf = (uint8_t *) calloc(1, a.newbuf);
+			if (same_addr) {
+				memset(buf, 0, a.newbuf);
+			} else {
+				/* the old buffer is deliberately leaked: exact-size heap blocks keep ASan precise */
+				buf = (uint8_t *) calloc(1, a.newbuf);
+			}
 			%(prefix)spacket_set_buf(&sctx, buf, a.newbuf);
 		}
 	}
@@ -175,7 +181,11 @@ def make_glue(cfg, s, hists, prefix='barectf_', fprefix='barectf'):
         body = []
         for (n, f), v in zip(pc_user['members'], h['pcargs']):
             body.append('\tg_pc_%s = %s;' % (n, ca.lit(f, v)))
-        body.append('\tbuf = (uint8_t *) calloc(1, %d);' % h['buf'])
+        if h.get('same_addr'):
+            mx = max([h['buf']] + [o[2] for o in h['oracle'] if o[2] is not None])
+            body.append('\tsame_addr = 1; buf = (uint8_t *) calloc(1, %d);' % mx)
+        else:
+            body.append('\tsame_addr = 0; buf = (uint8_t *) calloc(1, %d);' % h['buf'])
         body.append('\t%sinit(&sctx, buf, %d, cbs, NULL);' % (prefix, h['buf']))
         for c in h['calls']:
             if c[0] == 'trace':
@@ -608,3 +618,58 @@ def real_tstream_term(metadata_text, sid, has_stream_id):
     return '(mk_tst %s %s %s %s %s [%s])' % (bo, o(ph), tsdl_struct_term(st.types['packet.context'], tsdl),
                                             o(st.types.get('event.header')), o(st.types.get('event.context')),
                                             '; '.join(ev_terms))
+
+
+# ------------------------------------------------------------------ direct probe of the generated size functions
+def is_dyn_ft(ft):
+    k = ft[0]
+    if k in ('str', 'darr'):
+        return True
+    if k == 'sarr':
+        return is_dyn_ft(ft[2])
+    return False
+
+
+def dyn_args(ca, st, vals):
+    """arguments of the members the generated _er_size_* function takes (only_dyn=True)"""
+    out = []
+    names = [n for n, _ in st['members']]
+    for (n, f), v in zip(st['members'], vals):
+        is_len = n.startswith('__') and n.endswith('_len') and n[2:-4] in names
+        if is_dyn_ft(f) or is_len:
+            out.append(ca.lit(f, v))
+    return out
+
+
+def probe_sizes(cfg, s, workdir, rng, nprobe=24, prefix='barectf_'):
+    """Calls the REAL static _er_size_<dst>_<ert>() functions (by including barectf.c) with ctx->at set
+    to chosen positions; returns list of dicts (ert index, at, vals, impl size, layout-arithmetic size)."""
+    erts = sorted_erts(s)
+    ca = lg.CArgs()
+    lines, probes = [], []
+    hb = lg.header_bits(cfg, s, [])
+    for ei, e in enumerate(erts):
+        for k in range(nprobe):
+            at = rng.choice([hb, hb, rng.randrange(0, 64), rng.randrange(0, 4096), 8 * rng.randrange(0, 64)])
+            vals = [lg.rand_struct_vals(rng, st, 5) for st in scopes(cfg, s, e)]
+            args = []
+            for st, v in zip(scopes(cfg, s, e), vals):
+                args += dyn_args(ca, st, v)
+            lines.append('\tsctx.parent.at = %dU; printf("%%u\\n", (unsigned) _er_size_%s_%s(&sctx%s));' % (
+                at, s['name'], e['name'], ''.join(', ' + a for a in args)))
+            probes.append({'ert': ei, 'at': at, 'vals': vals,
+                           'expected': lg.record_end(cfg, s, e, vals, at) - at})
+    src = ['#include "barectf.c"', '#include <stdio.h>', '\n'.join(ca.decls),
+           'int main(void)\n{\n\tstatic struct %s%s_ctx sctx;' % (prefix, s['name']), '\n'.join(lines), '\treturn 0;\n}']
+    with open(os.path.join(workdir, 'probe.c'), 'w') as f:
+        f.write('\n'.join(src) + '\n')
+    rc, out = bt.cc(['-w', '-O0', 'probe.c', '-o', 'probe'], cwd=workdir)
+    if rc != 0:
+        return None, 'size probe does not compile: ' + out[-600:]
+    p = subprocess.run([os.path.join(workdir, 'probe')], capture_output=True, text=True, timeout=60)
+    vals = p.stdout.split()
+    if p.returncode != 0 or len(vals) != len(probes):
+        return None, 'size probe failed: rc %s, %d/%d lines' % (p.returncode, len(vals), len(probes))
+    for pr, v in zip(probes, vals):
+        pr['impl'] = int(v)
+    return probes, None
